@@ -15,4 +15,17 @@ def run(chk):
         n = 4 if chk.tier == "quick" else 10
         total = opcheck.key_trace(chk, sc, "TraceDomination", "harness.drive_domination", 0, [chk.seed, n], timeout=3000)
         chk.notes["domination_lattice_points"] = total
+        # the configured pairs of every shipped configuration that uses the 1/r bound (prefactors from the .ini files)
+        from concurrent.futures import ThreadPoolExecutor
+        from harness import runs
+        cfgs = [c for c in runs.SHIPPED if "coulomb" in c or "dipoles" in c or "water" in c]
+        nn = 2 if chk.tier == "quick" else 6
+
+        def one(c):
+            return opcheck.key_trace(chk, sc, "TraceDomination", "harness.drive_domination",
+                                     c.split("/")[-2] + "_" + c.split("/")[-1][:-4], [c, chk.seed, nn], mode="config",
+                                     timeout=3000)
+        with ThreadPoolExecutor(8) as ex:
+            pts = list(ex.map(one, cfgs))
+        chk.notes["domination_lattice_points_per_configuration"] = dict(zip(cfgs, pts))
         runlevel.run_for(chk, "C04", sc)
